@@ -418,9 +418,10 @@ class StmtMixin:
     def loop_ordinal(self, cx, node):
         if cx.fn is None:
             return None
+        node = getattr(node, "_verif_ord_node", node)
         k = 0
         for n in ast.walk(cx.fn):
-            if isinstance(n, (ast.For, ast.While)):
+            if isinstance(n, (ast.For, ast.While, ast.ListComp)):
                 if n is node:
                     return k
                 k += 1
@@ -487,6 +488,24 @@ class StmtMixin:
                     yield st1, IterSrc(cnt, lambda s, i, ky=ky: [o.int_(i), o.int_(z3.BV2Int(ky[i % z3.Length(ky)]))],
                                        "zip(range, cycle)")
                 return
+        if isinstance(node, ast.Call) and ast.unparse(node.func) == "zip" and len(node.args) == 2:
+            for st1, vs in self.ev_seq(st, list(node.args), cx):
+                if isinstance(vs, Raise):
+                    yield st1, vs
+                    continue
+                if not all(o.refcls(st1, v, ("list", "tuple")) for v in vs):
+                    raise Unsupported("zip over non-sequences")
+                ra, rb = o.r(vs[0]), o.r(vs[1])
+                ia, ib = st1.rd("$items", ra), st1.rd("$items", rb)
+                na, nb = o.seq_len(st1, ra), o.seq_len(st1, rb)
+
+                def elem2(s, i, ia=ia, ib=ib):
+                    a, b = z3.Select(ia, i), z3.Select(ib, i)
+                    for v in (a, b):
+                        s.assume(z3.Implies(w.V.is_ref(v), z3.And(w.V.r(v) > 0, w.V.r(v) <= s.alloc)))
+                    return [SV(a), SV(b)]
+                yield st1, IterSrc(z3.If(na < nb, na, nb), elem2, "zip")
+            return
         for st1, c in self.ev(st, node, cx):
             if isinstance(c, Raise):
                 yield st1, c
@@ -769,3 +788,46 @@ def _as_load(t):
         if hasattr(n, "ctx"):
             n.ctx = ast.Load()
     return t2
+
+
+class ComprehensionMixin:
+    """List comprehensions are executed as the loop they abbreviate:
+        comp_result = []
+        for <target> in <iterable>:
+            if <conditions>: comp_result.append(<element>)
+    with the comprehension's ordinal (loops and comprehensions are numbered together, in ast.walk order) selecting
+    the invariants of the contract; `comp_result` names the list under construction in those invariants."""
+
+    def ev_ListComp(self, st, e, cx):
+        if len(e.generators) != 1 or e.generators[0].is_async:
+            raise Unsupported("comprehension with several generators")
+        gen = e.generators[0]
+        name = "comp_result"
+        if name in st.locals:
+            raise Unsupported("nested comprehensions")
+        app = ast.Expr(ast.Call(ast.Attribute(ast.Name(name, ast.Load()), "append", ast.Load()), [e.elt], []))
+        body = app
+        for cond in reversed(gen.ifs):
+            body = ast.If(cond, [body], [])
+        loop = ast.For(gen.target, gen.iter, [body], [], None)
+        loop._verif_ord_node = e
+        for n in (app, body, loop):
+            ast.copy_location(n, e)
+        ast.fix_missing_locations(loop)
+        st = st.clone()
+        saved = {n: st.locals.get(n) for n in self.assigned_names([gen.target])}
+        st.locals[name] = self.o.seq_new(st, "list", [])
+        for f, out in self.st_For(st, loop, cx):
+            f = f.clone()
+            res = f.locals.pop(name, None)
+            for n, sv in saved.items():
+                if sv is None:
+                    f.locals.pop(n, None)
+                else:
+                    f.locals[n] = sv
+            if out is None:
+                yield f, res
+            elif isinstance(out, Raise):
+                yield f, out
+            else:
+                raise Unsupported("control flow out of a comprehension")
